@@ -533,7 +533,7 @@ func drvDotLocal(r *rand.Rand, n int) [][]Action {
 // interleavings of renders, fragment renders, additions and late hints
 func drvHistory(r *rand.Rand, n int, lateHints bool) [][]Action {
 	out := [][]Action{}
-	allPaths := []string{"x/d", "y/d", "z/d", "fmt", "x/fmt", "math/rand", "crypto/rand", "q/go", "C"}
+	allPaths := []string{"x/d", "y/d", "z/d", "fmt", "x/fmt", "math/rand", "crypto/rand", "q/go", "C", "w/d/", "v/e/"} // (two end in a slash)
 	for i := 0; i < n; i++ {
 		paths := allPaths
 		switch i % 4 {
